@@ -399,6 +399,8 @@ var c01FrontOaPinned = []frontOaPinned{
 			`{"rn":1}`, `{"rn":"a","tags":[]}`, `{"rn":"a","dict":{}}`, `{"rn":"a","c":-1}`, `{"rn":"a","aa":2}`, `{"rn":"a","on":null}`}},
 	{"oapinint64", `{"R": {"type": "integer", "format": "int64"}, "U": {"type": "integer"}}`, "U",
 		[]string{`9223372036854775808`, `9223372036854775807`, `-9223372036854775808`, `1.0`, `1.5`}},
+	// witness of C01_openapi_parser_sound_counterexample (lean/Cog/Props/C01.lean: `OA.cxComps`)
+	{"oapinnullbool", `{"R": {"type": "boolean", "nullable": true}}`, "R", []string{`null`, `true`, `0`}},
 	{"oapinerrors1", `{"R": {"type": "array"}}`, "R", nil},
 	{"oapinerrors2", `{"R": {"enum": ["a"]}}`, "R", nil},
 	{"oapinerrors3", `{"R": {"type": "boolean", "enum": [true]}}`, "R", nil},
